@@ -484,6 +484,12 @@ func (p *printer) writeCommentPrefix(pos, next token.Position, prev *ast.Comment
 			// this is analogous to using formfeeds to separate
 			// individual lines of /*-style comments
 			p.writeByte('\f', nlimit(n))
+		} else if prev == nil {
+			// the comment was written before the last item in the source
+			// (its line is smaller) but is printed after it, on the same
+			// output line: separate the two, or "x /" followed by "//c"
+			// reads "x ///c"
+			p.writeByte(' ', 1)
 		}
 	}
 }
